@@ -23,7 +23,7 @@ import (
 
 // SvcScenario is the replayable witness of a service case.
 type SvcScenario struct {
-	Kind       string `json:"kind"` // "svc" | "collide"
+	Kind       string `json:"kind"`                 // "svc" | "collide"
 	K          []int  `json:"k,omitempty"`          // items (agent types = listener kinds = ExC2 endpoints) per connection
 	Interleave int    `json:"interleave,omitempty"` // 0: connection by connection, 1: round robin, 2: connection by connection, last first
 	Disc       []int  `json:"disc,omitempty"`       // disconnect order (connection indices; connections attach in index order)
@@ -87,7 +87,7 @@ func runSvcInProcess(c *lib.Ctx, sc SvcScenario) {
 	c.Cur("service-scenario", b)
 	s, err := newSession(c, false, true)
 	if err != nil {
-		inconclusive(c, "rig: " + err.Error())
+		inconclusive(c, "rig: "+err.Error())
 		return
 	}
 	defer s.close()
@@ -104,7 +104,7 @@ func runSvcInProcess(c *lib.Ctx, sc SvcScenario) {
 		sr.viol(f.Sig, f.What, map[string]any{"step": f.Step, "ops": s.hist, "more": f.Detail})
 	}
 	if s.broken != "" {
-		inconclusive(c, "service scenario " + sc.Key() + ": " + s.broken)
+		inconclusive(c, "service scenario "+sc.Key()+": "+s.broken)
 	}
 	sr.progress("done")
 }
@@ -112,7 +112,7 @@ func runSvcInProcess(c *lib.Ctx, sc SvcScenario) {
 func (sr *svcRun) connect(i int) bool {
 	cl, err := svcclient.Connect(sr.s.addr, "service-endpoint", "service-pw", connName(i))
 	if err != nil {
-		inconclusive(sr.c, "service connect: " + err.Error())
+		inconclusive(sr.c, "service connect: "+err.Error())
 		return false
 	}
 	sr.conns = append(sr.conns, cl)
@@ -221,7 +221,18 @@ func toSet(a []string) map[string]bool {
 
 // agentProbe posts a third-party agent request carrying magic to the HTTP listener
 // (endpoint == "") or to an External-C2 endpoint of the teamserver port.
-func (sr *svcRun) agentProbe(magic uint32, endpoint string) (int, string, []byte) {
+func (sr *svcRun) agentProbe(magic uint32, endpoint string) (st int, body string, want []byte) {
+	t0 := time.Now()
+	defer func() {
+		if d := time.Since(t0); d > 5*time.Second {
+			sr.c.Observe("slow-agent-probes", 1)
+			sr.progress("slow probe: magic %#x endpoint %q took %v -> status %d body %q", magic, endpoint, d, st, clip(body))
+		}
+	}()
+	return sr.agentProbe1(magic, endpoint)
+}
+
+func (sr *svcRun) agentProbe1(magic uint32, endpoint string) (int, string, []byte) {
 	sr.reqID++
 	rest := []byte(fmt.Sprintf("c16-payload-%d", sr.reqID))
 	body := demon.Header(magic, 0x1600+uint32(sr.reqID), 0x63, uint32(sr.reqID), rest)
@@ -542,7 +553,7 @@ func (sr *svcRun) collide() {
 		sr.check("ExC2 registration of a freed name")
 	case "builtin-vs-exc2":
 		exc2("B", "xe-B", true)
-		s.apply(Op{V: "add", K: "Smb", N: "B"}) // must be refused
+		s.apply(Op{V: "add", K: "Smb", N: "B"})  // must be refused
 		s.apply(Op{V: "add", K: "Http", N: "B"}) // must be refused
 		s.apply(Op{V: "fresh"})
 		sr.check("refused built-in adds")
